@@ -35,7 +35,7 @@ func NewPresence(start xml.StartElement) (Presence, error) {
 			v.Lang = attr.Value
 			continue
 		}
-		if attr.Name.Space != "" && attr.Name.Space != start.Name.Space {
+		if attr.Name.Space != "" {
 			continue
 		}
 
